@@ -35,6 +35,15 @@ inductive Pred where
   | lastGt (k : Nat)       -- [last()>k]
   | posLtLast              -- [position()<last()]
   | lastMinus1             -- [last()-1]        last() inside arithmetic: a number
+  -- number-VALUED predicates that are neither literals nor call position()/last(): positional by XPath 2.4
+  | sumLit (a b : Nat)     -- [a+b]
+  | divLit (a b : Nat)     -- [a div b]             (non-integer, Infinity, NaN: equal to no position)
+  | ceilDiv (a b : Nat)    -- [ceiling(a div b)]
+  | negLit (k : Nat)       -- [-k]
+  | countChild (x : String) -- [count(x)]            number of child elements named x
+  | countSib (x : String)  -- [count(../x)]         number of elements named x among the children of the parent
+  | strlenAttr (x : String) -- [string-length(@x)]   (attribute values in generated documents have length 1)
+  | numberAttr (x : String) -- [number(@x)]          (value 1, or NaN when there is no such attribute)
   | attr (x : String)      -- [@x]
   | child (x : String)     -- [x]
   | notAttr (x : String)   -- [not(@x)]
@@ -108,6 +117,14 @@ def Pred.render : Pred → String
   | .lastGt k => "[last()>" ++ toString k ++ "]"
   | .posLtLast => "[position()<last()]"
   | .lastMinus1 => "[last()-1]"
+  | .sumLit a b => "[" ++ toString a ++ "+" ++ toString b ++ "]"
+  | .divLit a b => "[" ++ toString a ++ " div " ++ toString b ++ "]"
+  | .ceilDiv a b => "[ceiling(" ++ toString a ++ " div " ++ toString b ++ ")]"
+  | .negLit k => "[-" ++ toString k ++ "]"
+  | .countChild x => "[count(" ++ x ++ ")]"
+  | .countSib x => "[count(../" ++ x ++ ")]"
+  | .strlenAttr x => "[string-length(@" ++ x ++ ")]"
+  | .numberAttr x => "[number(@" ++ x ++ ")]"
   | .attr x => "[@" ++ x ++ "]"
   | .child x => "[" ++ x ++ "]"
   | .notAttr x => "[not(@" ++ x ++ ")]"
@@ -164,6 +181,19 @@ def predVal (d : Doc) (p : Pred) (m pos size : Nat) : PVal :=
   | .lastGt k => .bool (decide (size > k))
   | .posLtLast => .bool (decide (pos < size))
   | .lastMinus1 => .num (size - 1)
+  -- a number that is not a positive integer (0, negative, fractional, ±Infinity, NaN) equals no position and is
+  -- false as a boolean only when 0/NaN; both evaluators only ever compare it with a position: it is recorded as 0
+  | .sumLit a b => .num (a + b)
+  | .divLit a b => .num (if b != 0 && a % b == 0 then a / b else 0)
+  | .ceilDiv a b => .num (if b == 0 then 0 else (a + b - 1) / b)
+  | .negLit _ => .num 0
+  | .countChild x => .num ((d.children m).filter fun c => d.kind c == .elem && d.name c == x).length
+  | .countSib x =>
+    .num (match d.parent m with
+          | some p => ((d.children p).filter fun c => d.kind c == .elem && d.name c == x).length
+          | none => 0)
+  | .strlenAttr x => .num (if (d.attrs m).any fun a => d.name a == x then 1 else 0)
+  | .numberAttr x => .num (if (d.attrs m).any fun a => d.name a == x then 1 else 0)
   | .attr x => .bool ((d.attrs m).any fun a => d.name a == x)
   | .child x => .bool ((d.children m).any fun c => d.kind c == .elem && d.name c == x)
   | .notAttr x => .bool (!(d.attrs m).any fun a => d.name a == x)
